@@ -142,7 +142,9 @@ class Executor:
             return z3.BoolVal(len(v.items) > 0)
         if isinstance(v, VRef):
             o = state.heap[v.oid]
-            if o.kind in ("list", "dict", "barray", "alist"):
+            if o.kind == "udict":
+                return z3.Or(o.other, *o.opt.values())
+            if o.kind in ("list", "dict", "barray", "alist", "ulist"):
                 return self.length(state, v).t > 0
             return z3.BoolVal(True)
         if isinstance(v, VSym):
@@ -220,6 +222,20 @@ class Executor:
                 return conj([self.eq(state, oa.d[k], ob.d[k]) for k in oa.d])
             if oa.kind in ("inst", "exc") or ob.kind in ("inst", "exc"):
                 return z3.BoolVal(False)    # identity semantics (no __eq__ modelled)
+            fam = {"list": "list", "ulist": "list", "dict": "dict", "udict": "dict"}
+            if oa.kind in fam and ob.kind in fam and fam[oa.kind] != fam[ob.kind]:
+                return z3.BoolVal(False)    # a list never equals a dict
+            if {oa.kind, ob.kind} == {"dict", "udict"}:
+                c, u = (oa, ob) if oa.kind == "dict" else (ob, oa)
+                if c.d is not None and c.sym is None and not getattr(c, "opt", None) and all(k in u.d for k in c.d):
+                    # a dict with known keys equals an untrusted one iff the latter holds exactly those keys, same values
+                    parts = [z3.Not(u.other)]
+                    for k in u.d:
+                        parts.append(z3.And(u.opt[k], self.eq(state, c.d[k], u.d[k])) if k in c.d else z3.Not(u.opt[k]))
+                    return z3.And(*parts)
+            if oa.kind in ("ulist", "udict") or ob.kind in ("ulist", "udict"):
+                # two distinct untrusted containers (nothing is known about their contents): unknown, but one answer
+                return z3.Bool("eq!%d!%d" % (min(a.oid, b.oid), max(a.oid, b.oid)))
             raise Unsupported("== on heap objects %s/%s" % (oa.kind, ob.kind))
         if ka == "sym":
             return a.t == b.t
@@ -391,7 +407,11 @@ class Executor:
                     return ext(self, state, [], {}, a)
                 if o.kind == "list":
                     return VInt(len(o.items)) if o.items is not None else VInt(z3.Length(o.seq))
+                if o.kind == "ulist":
+                    return VInt(o.n)
                 if o.kind == "dict":
+                    if getattr(o, "open", False):
+                        raise Unsupported("len() of an untrusted dict")
                     if o.d is not None:
                         return VInt(len(o.d))
                     return VInt(self.sym_dict_len(state, o))
@@ -958,7 +978,7 @@ class Executor:
                     return self.module_const(state, c.module, c.name + "." + attr, ex)
             if o.kind == "exc" and attr == "args":
                 return o.fields.get("args", VTuple([]))
-            if o.kind in ("list", "dict", "barray", "alist"):
+            if o.kind in ("list", "dict", "barray", "alist", "udict", "ulist"):
                 return VFunc("builtin", o.kind + "." + attr, self_val=a)
             if o.kind in ("inst",) and o.shape is not None:
                 ext = self.reg.virtual_method(o.shape, attr)
